@@ -31,16 +31,22 @@ D26Step(st, e) ==
           /\ \E j \in DOMAIN st.pool : st.pool[j].kind = "UPDATE" /\ c.o \in SeqToSet(st.pool[j].orders)
 
 Req(kind, o, price) == [ev |-> "req", a |-> [txn |-> FALSE], reqs |-> <<[kind |-> kind, o |-> o, price |-> price, size |-> Size]>>]
+ReqTxn(kind, price) == [ev |-> "req", a |-> [txn |-> TRUE],
+                         reqs |-> LET os == CHOOSE q \in [1..Cardinality(Orders) -> Orders] : \A i, j \in DOMAIN q : i # j => q[i] # q[j]
+                                  IN [i \in DOMAIN os |-> [kind |-> kind, o |-> os[i], price |-> price, size |-> Size]]]
 Events ==
     {Req("PLACE", o, 200) : o \in {k \in Orders : ~Has(s.ord, k)}}
     \cup {Req("CANCEL", o, 0) : o \in DOMAIN s.ord}
     \cup {Req("UPDATE", o, 300) : o \in DOMAIN s.ord}
+    \* all orders in one transaction: one package holding every accepted order
+    \cup (IF Cardinality(Orders) > 1 /\ s.ord = <<>> THEN {ReqTxn("PLACE", 200)} ELSE {})
+    \cup (IF Cardinality(Orders) > 1 /\ DOMAIN s.ord = Orders THEN {ReqTxn("CANCEL", 0), ReqTxn("UPDATE", 300)} ELSE {})
     \cup (IF s.pool = <<>> THEN {}
           ELSE LET p == Head(s.pool)
-                   o == p.orders[1]
-               IN {[ev |-> "run", a |-> [kind |-> p.kind, oc |-> oc, codes |-> [k \in {o} |-> c], missing |-> ms]] :
-                      oc \in {"answer", "raise", "raise_applied"}, c \in {0, 136},
-                      ms \in (IF p.kind = "CANCEL" THEN {{}, {o}} ELSE {{}})})
+                   os == SeqToSet(p.orders)
+               IN {[ev |-> "run", a |-> [kind |-> p.kind, oc |-> oc, codes |-> cs, missing |-> ms]] :
+                      oc \in {"answer", "raise", "raise_applied"}, cs \in [os -> {0, 136}],
+                      ms \in (IF p.kind = "CANCEL" THEN SUBSET os ELSE {{}})})
     \cup {[ev |-> "xfill", a |-> [o |-> o, amount |-> amt]] : o \in {k \in DOMAIN s.x : OpenAtExchange(s.x[k].status)}, amt \in 1..Size}
     \cup {[ev |-> "xcancel", a |-> [o |-> o]] : o \in {k \in DOMAIN s.x : OpenAtExchange(s.x[k].status)}}
     \cup (IF Len(s.hq) < MaxPolls THEN {[ev |-> "snap", a |-> [n |-> 0]]} ELSE {})
